@@ -858,7 +858,9 @@ class Pass2(CompilePass):
                  not node.right.type.is_builtin:
                 raise CompileError(EC.TYPE_MISMATCH, node=node)
 
-        if node.type == Type.UNKNOWN:
+        # an ill-typed operation has the UNKNOWN type, which compares
+        # unequal to everything (even itself), so test for it this way
+        if not node.type.is_builtin:
             raise CompileError(EC.TYPE_MISMATCH, node=node)
 
     def process_unary_op_pre(self, node):
